@@ -34,7 +34,7 @@ BOUNDS = {
              'mnem(6) x unit(5) x valu(11) x desc(7) on one well / curve / parameter line in canonical layout and, for '
              'lines one field away from the default, every single header deviation; STRT and version line sweeps; cell '
              'family: full product of 7 cell texts over the non-index cells of 2x1, 2x2, 2x3, 3x1 (curves x frames), both '
-             'NULLs, canonical + up to 14 data layouts (wrap modes, separators, leading/trailing blanks, no final newline, wrap x separator); 5 index number styles; smallest content (1 curve, 1 frame): full product of header '
+             'NULLs, canonical + up to 14 data layouts (wrap modes, separators, leading/trailing blanks, no final newline, wrap x separator); 5 index number styles; text tails: 1..3 curves x 1..3 frames of one- and two-character cells x wrap4 x final newline2 x lead2 x trail2 x sep2; smallest content (1 curve, 1 frame): full product of header '
              'paddings 3x3x2x3x3x3 x wrap2 x dlead2 x dtrail2 x titles2 x eol2 x 5 gap fillings, and every subset of its '
              '13 gaps for each of the 4 fillers',
     'thorough': 'as quick with <=2 deviations for every shape content, field product under every single header deviation, '
@@ -153,6 +153,8 @@ def shards(tier):
             for first in firsts:
                 out.append({'fam': 'cells', 'ncur': ncur, 'nfr': nfr, 'null': null, 'first': first})
     out.append({'fam': 'index'})
+    for ncur in (1, 2, 3):
+        out.append({'fam': 'tail', 'ncur': ncur})
     for lead, predot, precolon in itertools.product((0, 1, 7), (0, 1, 7), (1, 0, 7)):
         if tier == 'quick':
             out.append({'fam': 'product', 'content': 'smallest', 'lead': lead, 'predot': predot, 'precolon': precolon})
@@ -531,6 +533,17 @@ def run_shard(shard, tier):
                 for vers in ('2.0', '1.2'):
                     content = shape_content(vers=vers, null='-999.25', ncur=ncur, nfr=nfr, nextra=0, nparam=None, index=style)
                     r.run(content, data_layouts(content, tier, tier != 'quick'))
+    elif fam == 'tail':
+        # the end of the text: lines of one or two characters, with and without the final newline, wrapped or not
+        ncur = shard['ncur']
+        dims = {'wrap': [None, 'all', 1, 2], 'eol': [True, False], 'dlead': ['', ' '], 'dtrail': ['', ' '], 'sep': [' ', '\t']}
+        for nfr in (1, 2, 3):
+            for digits in (['1', '2', '3', '4', '5', '6', '7', '8', '9'], ['-1', '0', '1', '2', '-3', '4', '5', '6', '7']):
+                frames = [[digits[f]] + [digits[3 + (f * (ncur - 1) + c) % 6] for c in range(ncur - 1)] for f in range(nfr)]
+                for vers in ('2.0', '1.2'):
+                    content = L.make_content(vers=vers, null='-999.25', well_extra=[], curves=CURVE_POOL[:ncur], params=None,
+                                             frames=frames, vdesc=VDESC[vers])
+                    r.run(content, L.product_layouts(content, dims, [None]))
     elif fam == 'product':
         content = shape_content(**(SMALLEST if shard['content'] == 'smallest' else SMALL22))
         dims = {'lead': [shard['lead']], 'predot': [shard['predot']], 'precolon': [shard['precolon']],
